@@ -11,9 +11,19 @@ package keeper
 //@ func (DelegationHooksWrapper).AfterDelegation
 //@   ensures[C16.ad.noop] true
 
+// C16: an undelegation is held (hold count +1, queued for the completion epoch) iff the operator is opting out
+// (then it matures together with the opt-out) or its current or previous key is in the active validator set
 //@ func (DelegationHooksWrapper).AfterUndelegationStarted
-//@   flag assumed
+//@   flag frame_assumed
+//@   flag pure=ChainIDWithoutRevision,IsOperatorRemovingKeyFromChainID,GetOperatorOptOutFinishEpoch,GetOperatorConsKeyForChainID,ToConsAddr,GetExocoreValidator,GetOperatorPrevConsKeyForChainID,GetUnbondingCompletionEpoch,Logger
+//@   flag havoc=AppendUndelegationToMature,SetUndelegationMaturityEpoch,IncrementUndelegationHoldCount
 //@   modifies store(ctx, "dogfood"), get(ctx, "delegation", holdKey(recordKey))
+//@   before[C16.aus.hold]  IncrementUndelegationHoldCount requires arg_recordKey == recordKey &&
+//@        (res_IsOperatorRemovingKeyFromChainID_0 || (res_GetOperatorConsKeyForChainID_0 && res_GetExocoreValidator_1))
+//@   before[C16.aus.epoch] AppendUndelegationToMature requires arg_recordKey == recordKey && arg_epoch ==
+//@        ite(res_IsOperatorRemovingKeyFromChainID_0, res_GetOperatorOptOutFinishEpoch_0, res_GetUnbondingCompletionEpoch_0)
+//@   before[C16.aus.lookup] SetUndelegationMaturityEpoch requires arg_recordKey == recordKey && arg_epoch ==
+//@        ite(res_IsOperatorRemovingKeyFromChainID_0, res_GetOperatorOptOutFinishEpoch_0, res_GetUnbondingCompletionEpoch_0)
 
 //@ func (Keeper).UpdateParams
 //@   requires msg != nil
@@ -21,3 +31,36 @@ package keeper
 //@   flag prune
 //@   ensures[C10.up.dogfood] isMainnet(unwrap_ctx(ctx)) && k.authority != old(msg.Authority) ==>
 //@        err != nil && state(unwrap_ctx(ctx)) == old(state(unwrap_ctx(ctx)))
+
+// ---------------------------------------------------------------------------------------------
+// C16: completion epoch = current epoch of the dogfood epoch identifier + the configured number of unbonding epochs
+//@ func (Keeper).GetUnbondingCompletionEpoch
+//@   flag pure=GetDogfoodParams,GetEpochInfo
+//@   ensures[C16.guce.spec] result == wraps(res_GetEpochInfo_0.CurrentEpoch + wraps(res_GetDogfoodParams_0.EpochsUntilUnbonded, 18446744073709551616), 18446744073709551616)
+
+// ---------------------------------------------------------------------------------------------
+// Dogfood EndBlock: guard obligations on the calls it makes (C06 cap and minimum power of the new set,
+// C07 registry maintenance under the chain id without revision, C06 non-epoch blocks report an empty update list)
+//@ func (Keeper).EndBlock
+//@   flag pure=IsEpochEnd,ChainIDWithoutRevision,GetPendingUndelegations,GetList,GetPendingOptOuts,GetPendingConsensusAddrs,GetAllExocoreValidators,ConsPubKey,GetConsAddress,GetActiveOperatorsForChainID,GetVotePowerForChainID,SortByPower,GetMaxValidators,ToConsAddr,NewWrappedConsKeyFromSdkKey,Logger
+//@   flag havoc=SetValidatorUpdates,ClearEpochEnd,ClearPreviousConsensusKeys,DecrementUndelegationHoldCount,ClearUndelegationMaturityEpoch,ClearPendingUndelegations,CompleteOperatorKeyRemovalForChainID,ClearPendingOptOuts,DeleteOperatorAddressForChainIDAndConsAddr,ClearPendingConsensusAddrs,SetLastTotalPower,ApplyValidatorChanges
+//@   modifies state(ctx)
+//@   modifies trace
+//@   before[C06.eb.nonepoch]  SetValidatorUpdates requires !res_IsEpochEnd_0 && len(arg2) == 0
+//@   before[C07.eb.prevkeys]  ClearPreviousConsensusKeys requires res_IsEpochEnd_0 && arg_chainID == res_ChainIDWithoutRevision_0
+//@   before[C07.eb.complete]  CompleteOperatorKeyRemovalForChainID requires res_IsEpochEnd_0 && arg_chainID == res_ChainIDWithoutRevision_0
+//@   before[C07.eb.prune]     DeleteOperatorAddressForChainIDAndConsAddr requires res_IsEpochEnd_0 && arg_chainID == res_ChainIDWithoutRevision_0
+//@   before[C16.eb.release]   DecrementUndelegationHoldCount requires res_IsEpochEnd_0
+//@ loop #1
+//@   invariant true
+//@ loop #2
+//@   invariant true
+//@ loop #3
+//@   invariant true
+//@ loop #4
+//@   invariant true
+//@ loop #5
+//@   invariant[C06.eb.cap]      rangeindex == -1 || rangeindex < res_GetMaxValidators_0
+//@   invariant[C06.eb.minpower] rangeindex == -1 || res_SortByPower_2[rangeindex] >= 1
+//@ loop #6
+//@   invariant true
